@@ -784,26 +784,20 @@ impl Ctx {
         let note = ts_rs::__verif::NOTE;
         let first = format!("{note}\nexport type Aaa = number;\n");
         let last = format!("{note}\nexport type Zzz = string;\n");
+        let ident0 = T::ident();
+        let item = |n: &str, t: &String| (n.to_string(), t.clone());
         let merged_orders: Vec<(&str, Result<String, String>)> = vec![
-            ("first,T,last", guarded(|| {
-                let a = format!("{note}{}", ts_rs::__verif::merge(first.clone(), text.clone()));
-                format!("{note}{}", ts_rs::__verif::merge(a, last.clone()))
-            })),
-            ("T,last,first", guarded(|| {
-                let a = format!("{note}{}", ts_rs::__verif::merge(text.clone(), last.clone()));
-                format!("{note}{}", ts_rs::__verif::merge(a, first.clone()))
-            })),
-            ("last,first,T", guarded(|| {
-                let a = format!("{note}{}", ts_rs::__verif::merge(last.clone(), first.clone()));
-                format!("{note}{}", ts_rs::__verif::merge(a, text.clone()))
-            })),
+            ("first,T,last", guarded(|| ts_rs::__verif::merge(&[item("Aaa", &first), item(&ident0, &text), item("Zzz", &last)]))),
+            ("T,last,first", guarded(|| ts_rs::__verif::merge(&[item(&ident0, &text), item("Zzz", &last), item("Aaa", &first)]))),
+            ("last,first,T", guarded(|| ts_rs::__verif::merge(&[item("Zzz", &last), item("Aaa", &first), item(&ident0, &text)]))),
+            ("T,first", guarded(|| ts_rs::__verif::merge(&[item(&ident0, &text), item("Aaa", &first)]))),
         ];
         let ident = T::ident();
         let plain_decl = tsmodel::parse_module(&plain).ok().and_then(|m| m.decls.into_iter().next());
         let mut files: Vec<(String, String, Vec<String>)> = vec![("alone".into(), text.clone(), vec![ident.clone()])];
         for (o, r) in merged_orders {
             match r {
-                Ok(t) => files.push((format!("merged:{o}"), t, vec!["Aaa".into(), ident.clone(), "Zzz".into()])),
+                Ok(t) => files.push((format!("merged:{o}"), t, if o == "T,first" { vec!["Aaa".into(), ident.clone()] } else { vec!["Aaa".into(), ident.clone(), "Zzz".into()] })),
                 Err(p) => self.violation("merge-panics", json!({"type": label, "order": o, "panic": p})),
             }
         }
